@@ -433,7 +433,7 @@ func subsetScript(e *Enc, sel []*Obligation) string {
 		if !want[ob] {
 			// skip "(push 1)\n<goal>\n(check-sat)\n(pop 1)\n"
 			block := "(push 1)\n" + ob.Goal + "\n(check-sat)\n(pop 1)\n"
-			if ob.Kind == "cover" {
+			if ob.Kind == "cover" && ob.Goal == "(assert true)" {
 				block = "(push 1)\n(check-sat)\n(pop 1)\n"
 			}
 			if strings.HasPrefix(script[pos:], block) {
